@@ -495,6 +495,26 @@ func (m *Nitro) Close() {
 	}
 }
 
+// freeStore returns every item and node of a skiplist that no goroutine uses
+// any more, and its head and tail, to the allocator.
+func (m *Nitro) freeStore(s *skiplist.Skiplist) {
+	buf := s.MakeBuf()
+	defer s.FreeBuf(buf)
+
+	iter := s.NewIterator(m.iterCmp, buf)
+	iter.SeekFirst()
+	for iter.Valid() {
+		n := iter.GetNode()
+		iter.Next()
+		m.freeItem((*Item)(n.Item()))
+		s.FreeNode(n, &s.Stats)
+	}
+	iter.Close()
+
+	s.FreeNode(s.HeadNode(), &s.Stats)
+	s.FreeNode(s.TailNode(), &s.Stats)
+}
+
 func (m *Nitro) GetCurrSn() uint32 {
 	return atomic.LoadUint32(&m.currSn)
 }
@@ -1155,6 +1175,22 @@ func (m *Nitro) LoadFromDisk(dir string, concurr int, callb ItemCallback) (*Snap
 		}
 	}()
 
+	// A restore that fails (unreadable shard, checksum mismatch) must hand back
+	// what it has built so far: the instance keeps its old store, and nothing
+	// else refers to the builder's nodes and items.
+	assembled := false
+	defer func() {
+		if !assembled && m.useMemoryMgmt {
+			var built []*skiplist.Segment
+			for _, seg := range segments {
+				if seg != nil {
+					built = append(built, seg)
+				}
+			}
+			m.freeStore(b.Assemble(built...))
+		}
+	}()
+
 	for i, file := range files {
 		segments[i] = b.NewSegment()
 		segments[i].SetNodeCallback(nodeCallb)
@@ -1211,6 +1247,7 @@ func (m *Nitro) LoadFromDisk(dir string, concurr int, callb ItemCallback) (*Snap
 	// The restored structure replaces the (empty) one the instance was created with
 	oldStore := m.store
 	m.store = b.Assemble(segments...)
+	assembled = true
 	oldStore.FreeNode(oldStore.HeadNode(), &oldStore.Stats)
 	oldStore.FreeNode(oldStore.TailNode(), &oldStore.Stats)
 
